@@ -11,7 +11,7 @@ CHECKS = {
     'C03': ('exploration', 'property-based differential testing of a generated query pool against a reference predicate',
             'A seeded generator emits well-typed query types (views x filters x entry/sub-view triples) together with their predicate as data; results over generated world states are compared with the reference map (set, values, None-patterns, writes, size_hint) through four consumption modes and three access paths.'),
     'C04': ('exploration', 'stateful property testing with a drop ledger (individually identified values)',
-            'Every value carries a serial registered in a thread-local ledger; after every operation the live set must equal what the reference maps hold, values leaving a world must be dropped in that very step, copies must be fresh, and nothing may be alive after the last world is dropped.'),
+            'Every value carries a serial registered in a thread-local ledger; after every operation the live set must equal what the reference maps hold, values leaving a world must be dropped in that very step (also checked independently of any snapshot), copies must be fresh, ragged batches must be refused with every value dropped, and nothing may be alive after the last world is dropped. Second part: for edited serializations (the C11 generator) a failed deserialization must have dropped every value it constructed; recorded error paths are excluded by construction.'),
     'C05': ('exploration', 'stateful property testing under a checking global allocator with self-validating payloads',
             'Histories biased to growth/shrink patterns run under a tracking allocator (layout check on free/realloc, canaries, poison + quarantine, leak accounting of library allocations) with payloads that validate type tag, serial and derived data on every read; a fatal signal under a safe history is reported as a violation with the running case as replay.'),
     'C06': ('exploration', 'round-trip property testing in five encodings with lock-step differential execution',
@@ -21,7 +21,7 @@ CHECKS = {
     'C13': ('exploration', 'stateful property testing with a structural audit of internal bookkeeping after every step',
             'After every operation of every history the read-only hook dump is audited: rows <-> active slots bijection, len, free list == inactive slots without duplicates, one table per component set, lookup tables consistent.'),
     'C15': ('exploration', 'stateful property testing of resources interleaved with entity histories',
-            'Resource writes interleaved with arbitrary entity operations, clones and round trips; all resources must keep value and identity.'),
+            '65 compiled resource-view lists (subsets x type-checking orders x mutability of a 4-resource list) through view_resources, query(..).resources and run_system, interleaved with arbitrary entity operations, clones and round trips; all resources must keep value and identity. Second part: after run_schedule (every fork order under the hook driver, rayon pools) the resources must equal those of running the tasks one by one.'),
     'C16': ('exploration', 'property-based testing of equality laws over pairs of generated worlds',
             'Pairs of worlds reached along different paths are compared: reflexive, symmetric, equal implies same contents; clones and round trips compare equal.'),
 }
